@@ -48,6 +48,18 @@ struct Pool {
 };
 Pool &pool();
 
+// Memory the caller lends to the library for one run (texts of string references, constant keys of documents the harness
+// builds through the constructors). It is READ-ONLY while the library runs: any write, even one that is undone before the
+// call returns, faults (the driver reports it as write-to-borrowed-memory). Filled between open() and seal(), never reused
+// within a run.
+namespace borrowed {
+void reset_run();
+void open();                                  // harness may add strings (no library call may run until seal())
+const char *put(const std::string &s);        // nullptr when the region is full
+void seal();
+bool contains(const void *p);                 // inside the lent region or the constant pool
+}
+
 MVal *mv_new(int type);
 MVal *mv_num(double d);
 MVal *mv_str(const std::string &s);
